@@ -434,7 +434,7 @@ class Unord:
                 for (x, y) in conds:
                     term = origin(fn, fn.term(x)["discr"])
                     cs = calls_in(term)
-                    if term[0] == "discr" and cs and cs[0][1].endswith("Try::branch"):
+                    if term[0] == "discr" and cs and cs[0][1].endswith("::branch") and "Try" in cs[0][1]:
                         continue  # `?`: error propagation
                     involves_elem = any(c[1].endswith("Iterator>::next") or c[1].endswith("::next") for c in cs) or \
                         self._term_uses_elem(fn, fn.term(x)["discr"], elem)
